@@ -434,7 +434,7 @@ SIBLING_SCENARIOS = [
     scn("siblings-names-prefix", ["A", "B"], [E("A", "a"), E("B", "a")], out_names={"A": "run.tsv", "B": "run_panoptica_aggregator_tmp.tsv"}),
     scn("siblings-names-dots", ["A", "B"], [E("A", "a"), E("B", "a")], out_names={"A": "res.v1.tsv", "B": "res.v2.tsv"}),
 ]
-MC17 = ["MC_Agg_c17_foreign.cfg", "MC_Agg_c17_absent.cfg", "MC_Agg_c17_empty.cfg", "MC_Agg_c17_header.cfg", "MC_Agg_c17_rows.cfg", "MC_Agg_c17_three.cfg",
+MC17 = ["MC_Agg_c17_foreign.cfg", "MC_Agg_c17_stat.cfg", "MC_Agg_c17_absent.cfg", "MC_Agg_c17_empty.cfg", "MC_Agg_c17_header.cfg", "MC_Agg_c17_rows.cfg", "MC_Agg_c17_three.cfg",
         "MC_Agg_c17_sibling.cfg"]
 
 
